@@ -47,4 +47,10 @@ theorem facts_C02_C11_C12_C13_C19_default_values :
 theorem facts_C03_C14_C15_C19_rollback :
     Facts.v1_rollbackOnInsertError = true ∧ Facts.v2_rollbackOnInsertError = true := by decide
 
+/-- C18: the service codes the model singles out are the SDK's spelling of those conditions -/
+theorem facts_C18_sdk_codes :
+    "LeaseAlreadyPresent" ∈ Facts.sdk_serviceCodes ∧ "ContainerAlreadyExists" ∈ Facts.sdk_serviceCodes ∧
+    "BlobAlreadyExists" ∈ Facts.sdk_serviceCodes ∧ "LeaseIdMissing" ∈ Facts.sdk_serviceCodes ∧
+    Facts.sdk_serviceCodes.length ≥ 100 := by decide
+
 end GoBatcher.Expect
